@@ -11,6 +11,7 @@ Record case := mk_case {
   c_mh_resolved : bool;             (* files::merge_hunks returned MergeResult::Resolved *)
   c_mh : list (list bytes);         (* its content as [[content]], or the Conflict hunks *)
   c_try : option bytes;             (* files::try_merge *)
+  c_self_identity : bool;           (* impl: collect_unchanged_words(x, x) is the identity, every term x *)
   c_panicked : bool;
 }.
 
@@ -73,11 +74,11 @@ Definition shape_okb (c : case) : bool :=
                    (seq 0 n)).
 
 Definition okb (c : case) : bool :=
-  negb (c_panicked c) && laws_okb (c_terms c) (c_accept c) (c_merge c) && shape_okb c.
+  negb (c_panicked c) && c_self_identity c
+  && laws_okb (c_terms c) (c_accept c) (c_merge c) && shape_okb c.
 
 (** Equal inputs to the diff must receive the identity matching for the laws to hold
     (hypothesis on Layer B); evaluated on the tokens of every term. *)
-Definition identity_matching (n : nat) : list (nat * nat) := map (fun i => (i, i)) (seq 0 n).
 Definition self_identity_okb (terms : list bytes) : bool :=
   forallb (fun x =>
              let w := words CmpExact x (tokenize TokLine x) in
